@@ -611,6 +611,9 @@ class Ctx:
 
     def free_fn(self, module, name):
         hits = [f for f in self.index.by_method.get(name, []) if not f.impl_span and f.mods and f.mods[-1] == module]
+        if not hits:
+            # the dump prints some module-level functions without their path
+            hits = [f for f in self.index.by_method.get(name, []) if not f.impl_span and not f.mods and f.name == name]
         if len(hits) != 1:
             raise Inconclusive('function %s::%s: %d matches' % (module, name, len(hits)))
         return self.mod.parse_body(hits[0])
